@@ -1647,7 +1647,31 @@ func (g *vGen) scenarioAffinityRefresh() {
 		k := uint(round)
 		advs := []int64{ms<<k + 1, ms<<k + 1, ms << k, ms<<k - 1, ms*int64(k+1) + 1, ms*int64(k+1)*2 + 1, 3*(ms<<k) + 1}
 		adv := advs[r.Intn(len(advs))]
+		// a call without a deadline on the same channel: its successful completion (a response) arrives while the
+		// first deadline-exceeded completion is inside the detector (only where the detector can be stopped there)
+		okID := -1
+		if verifDetectHookInstalled && r.Intn(2) == 0 {
+			add(func() string {
+				if cur() < 0 {
+					return ""
+				}
+				okID = call()
+				return fmt.Sprintf("pool pick call=%d picker=%d m=bound ctx=gcp dl=none req=k1/", okID, cur())
+			})
+		}
 		add(func() string { return fmt.Sprintf("pool adv ns=%d", adv) })
+		add(func() string {
+			if okID < 0 || len(ids) == 0 {
+				return ""
+			}
+			if _, ok := h.calls[okID]; !ok {
+				return ""
+			}
+			if _, ok := h.calls[ids[0]]; !ok {
+				return ""
+			}
+			return fmt.Sprintf("pool done2 a=%d b=%d park=1 errb=nil", ids[0], okID)
+		})
 		for j := 0; j < 3; j++ {
 			jj := j
 			add(func() string {
